@@ -345,7 +345,7 @@ def violation_sig(v):
 
 def match_known(prop, v, known):
     for f in known["findings"]:
-        if f["property"] != prop:
+        if prop != f.get("property") and prop not in f.get("properties", []):
             continue
         if "key" in f and f["key"] != v.get("key"):
             continue
